@@ -161,8 +161,10 @@ func c17Run(c *ev.Ctx, k c17Case) {
 		}
 		return // a configuration without endpoints may be refused at construction: that is an error, not an empty success
 	}
-	req := &proto.SSHCertificateSigningRequest{KeyMeta: &proto.KeyMeta{Identifier: "slot-x"}, Principals: []string{"alice"}, PublicKey: c17CertLines[0], Validity: 43200,
-		KeyId: `{"prins":["alice"],"transID":"ü\"{}"}`, Extensions: map[string]string{"permit-pty": "", "x": "y"}}
+	// (several principals, not in alphabetical order; critical options and extensions with several entries: an endpoint
+	// receives exactly this, whatever happened at earlier endpoints)
+	req := &proto.SSHCertificateSigningRequest{KeyMeta: &proto.KeyMeta{Identifier: "slot-x"}, Principals: []string{"zoe", "alice", "mid", "Alice"}, PublicKey: c17CertLines[0], Validity: 43200,
+		KeyId: `{"prins":["alice"],"transID":"ü\"{}"}`, Extensions: map[string]string{"permit-pty": "", "x": "y"}, CriticalOptions: map[string]string{"source-address": "10.0.0.0/8", "force-command": "true"}}
 	sent := gproto.Clone(req).(*proto.SSHCertificateSigningRequest)
 	var certs []ssh.PublicKey
 	var comments []string
@@ -275,6 +277,9 @@ func c17Run(c *ev.Ctx, k c17Case) {
 				c.Violation("C17:request-modified", fmt.Sprintf("endpoint %d received %v, sent %v", i, got, sent), k)
 			}
 		}
+	}
+	if !gproto.Equal(req, sent) {
+		c.Violation("C17:request-modified:callers-object", fmt.Sprintf("after Sign the caller's request object reads %v, it was %v", req, sent), k)
 	}
 }
 
